@@ -16,6 +16,8 @@ structure St where
   log : List WriteSet := []
   /-- `applyAll base log` -/
   kv : KV := []
+  /-- read faults armed by the last `fault` op for the next store call: `(skip, n)` -/
+  pend : Nat × Nat := (0, 0)
   deriving Inhabited
 
 def hx (b : Bytes) : String := Bytes.toHexTok b
@@ -65,44 +67,46 @@ def showState (s : State) : String :=
 
 def metaKeyOfOp (o : Op) : Option String := (o.bytes? "k").bind Wire.ofUtf8?
 
-def stepOp (s : St) (o : Op) : St × String :=
+/-- the operations on the store, the next call's reads faulted as `f` says -/
+def stepCall (f : Faults) (s : St) (o : Op) : St × String :=
   match o.verb with
   | "save" =>
     let sh : Wire.SignedHeader :=
       { header := Drv.C12.headerOfOp o, signature := o.bytes "hsig", signer := Drv.C12.signerOfOp o }
-    let wss := saveBlockData keyOk s.kv sh (Drv.C12.dataOfOp o) (o.bytes "sig")
-    (commit s wss, s!"ok hash={hx sh.header.hash} ws={describe wss}")
+    match saveBlockDataF keyOk f s.kv sh (Drv.C12.dataOfOp o) (o.bytes "sig") with
+    | .ok wss => (commit s wss, s!"ok hash={hx sh.header.hash} ws={describe wss}")
+    | .error e => (s, e.toString)
   | "get" =>
     match u64? o "at" with
-    | some h => (s, showBlk (getBlockData keyOk s.kv h))
+    | some h => (s, showBlk (getBlockDataF keyOk f 0 s.kv h))
     | none => (s, "bad-op")
   | "geth" =>
     match u64? o "at" with
     | some h =>
-      (s, match getHeader keyOk s.kv h with
+      (s, match getHeaderF keyOk f 0 s.kv h with
           | .ok sh => s!"ok hdr={hx sh.encode}"
           | .error e => e.toString)
     | none => (s, "bad-op")
   | "sig" =>
     match u64? o "at" with
-    | some h => (s, showSig (getSignature s.kv h))
+    | some h => (s, showSig (getSignatureF f 0 s.kv h))
     | none => (s, "bad-op")
   | "getbyhash" =>
     match o.bytes? "x" with
-    | some x => (s, showBlk (getBlockByHash keyOk s.kv x))
+    | some x => (s, showBlk (getBlockByHashF keyOk f s.kv x))
     | none => (s, "bad-op")
   | "sigbyhash" =>
     match o.bytes? "x" with
-    | some x => (s, showSig (getSignatureByHash s.kv x))
+    | some x => (s, showSig (getSignatureByHashF f s.kv x))
     | none => (s, "bad-op")
   | "height" =>
-    (s, match height s.kv with
+    (s, match heightF f s.kv with
         | .ok h => s!"ok h={h}"
         | .error e => e.toString)
   | "setheight" =>
     match u64? o "to" with
     | some h =>
-      match setHeight s.kv h with
+      match setHeightF f s.kv h with
       | .ok wss => (commit s wss, s!"ok ws={describe wss}")
       | .error e => (s, e.toString)
     | none => (s, "bad-op")
@@ -110,7 +114,7 @@ def stepOp (s : St) (o : Op) : St × String :=
     let wss := updateState (stateOfOp o)
     (commit s wss, s!"ok ws={describe wss}")
   | "getstate" =>
-    (s, match getState s.kv with
+    (s, match getStateF f s.kv with
         | .ok st => "ok " ++ showState st
         | .error e => e.toString)
   | "setmeta" =>
@@ -122,7 +126,7 @@ def stepOp (s : St) (o : Op) : St × String :=
   | "getmeta" =>
     match metaKeyOfOp o with
     | some k =>
-      (s, match getMetadata s.kv k with
+      (s, match getMetadataF f s.kv k with
           | .ok v => s!"ok v={hx v}"
           | .error e => e.toString)
     | none => (s, "bad-op")
@@ -142,6 +146,16 @@ def stepOp (s : St) (o : Op) : St × String :=
     | some _, some _, some _ => (s, "ok")
     | _, _, _ => (s, "bad-op")
   | _ => (s, "bad-op")
+
+/-- `fault get=<n> [skip=<k>]` arms read faults for the NEXT op line only (log backend); every other op runs
+with the armed faults and drops what is left of them -/
+def stepOp (s : St) (o : Op) : St × String :=
+  if o.verb = "fault" then
+    match u64? o "get" with
+    | some n => if s.badger then (s, "bad-op") else ({ s with pend := ((u64? o "skip").getD 0, n) }, "ok")
+    | none => (s, "bad-op")
+  else
+    stepCall (Faults.window s.pend.1 s.pend.2) { s with pend := (0, 0) } o
 
 def step (s : St) (line : String) : St × String :=
   let o := parseOp line
